@@ -51,9 +51,11 @@ enum Pos {
 enum WPos {
     /// item of the `weak` (DAG) / `links` (recursive) sequence, serialised after the strong fields
     Seq,
-    /// value of the `wmap` map (DAG kinds only)
+    /// DAG kinds: value of the `wmap` map; recursive kinds: item of the `pre` sequence, which is
+    /// serialised *before* the strong fields
     Map,
-    /// the `up` field (recursive kinds only; at most one per node; serialised *before* the strong fields)
+    /// the `up: Option<link>` field (recursive kinds only; at most one per node; serialised before
+    /// the strong fields)
     Up,
 }
 
@@ -118,6 +120,8 @@ struct Model {
     live_weak: usize,
     dangling: usize,
     dangling_in_map: usize,
+    /// `up: Option<link>` fields whose target is still open
+    open_up: usize,
 }
 
 struct Sim<'a> {
@@ -183,6 +187,9 @@ impl<'a> Sim<'a> {
                     St::Done => {}
                     St::Open if rec => {
                         self.m.cycle = true;
+                        if w.pos == WPos::Up {
+                            self.m.open_up += 1;
+                        }
                         let d = self.path.iter().rev().position(|&x| x == t).unwrap_or(0) + 1;
                         self.m.max_ring = self.m.max_ring.max(d);
                     }
@@ -211,11 +218,10 @@ impl<'a> Sim<'a> {
             if d.weak.iter().filter(|w| w.pos == WPos::Up).count() > 1 {
                 return Err("more than one Up link");
             }
-            if d.weak.iter().any(|w| w.pos == WPos::Map) {
-                return Err("Map link in a recursive graph");
-            }
-            for w in d.weak.iter().filter(|w| w.pos == WPos::Up) {
-                self.weak(w)?;
+            for p in [WPos::Map, WPos::Up] {
+                for w in d.weak.iter().filter(|w| w.pos == p) {
+                    self.weak(w)?;
+                }
             }
         } else if d.weak.iter().any(|w| w.pos == WPos::Up) {
             return Err("Up link in a DAG graph");
@@ -241,6 +247,9 @@ impl<'a> Sim<'a> {
             }
         }
         for p in [WPos::Seq, WPos::Map] {
+            if rec && p == WPos::Map {
+                continue;
+            }
             for w in d.weak.iter().filter(|w| w.pos == p) {
                 self.weak(w)?;
             }
@@ -276,6 +285,7 @@ fn simulate(c: &Case) -> Result<Model, &'static str> {
             live_weak: 0,
             dangling: 0,
             dangling_in_map: 0,
+            open_up: 0,
         },
     };
     if c.root_wrapped {
@@ -487,9 +497,12 @@ fn compare(before: &Canon, after: &Canon, text: &str) -> Result<(), String> {
     Ok(())
 }
 
-fn check_model(before: &Canon, m: &Model) {
+fn check_model(before: &Canon, m: &Model) -> Result<(), String> {
     // harness self-check: the materialised graph must have the topology the model predicts
-    assert!(before.occ == m.occ, "harness: materialised graph {:?} differs from the model {:?}", before.occ, m.occ);
+    if before.occ != m.occ {
+        return Err(format!("HARNESS BUG: materialised graph {:?} differs from the model {:?}", before.occ, m.occ));
+    }
+    Ok(())
 }
 
 fn check_text(text: &str, m: &Model) -> Result<(), String> {
@@ -720,7 +733,7 @@ macro_rules! dag_family {
             pub fn run(c: &Case, m: &Model) -> Result<(), String> {
                 let (root, wrapped) = build(c, m);
                 let before = canon(&root, &wrapped);
-                check_model(&before, m);
+                check_model(&before, m)?;
                 let ser = |r: &Option<Node>, w: &Option<$A<Node>>| match (r, w) {
                     (_, Some(a)) => serde_saphyr::to_string(a),
                     (Some(n), _) => serde_saphyr::to_string(n),
@@ -745,7 +758,7 @@ macro_rules! dag_family {
                 }
                 // plain mirror: "Aliases read into plain (non-wrapper) fields still give equal,
                 // independent copies" (property text)
-                if expansion_size(c) <= 5000 {
+                if expansion_size(c) <= 1500 {
                     let plain = serde_saphyr::from_str::<PNode>(&text).map_err(|e| {
                         format!("plain mirror: emitted text is rejected: {} (emitted {:?})", e.without_snippet(), text)
                     })?;
@@ -828,6 +841,7 @@ macro_rules! rec_family {
             #[derive(Serialize, Deserialize, Clone)]
             pub struct Node {
                 pub id: u32,
+                pub pre: Vec<$K<Node>>,
                 pub up: Option<$K<Node>>,
                 pub slots: Slots,
                 pub kids: Vec<$S<Node>>,
@@ -838,6 +852,7 @@ macro_rules! rec_family {
                 let d = &c.nodes[i];
                 let mut n = Node {
                     id: d.id,
+                    pre: vec![],
                     up: None,
                     slots: Slots { fa: None, fb: None },
                     kids: vec![],
@@ -865,7 +880,8 @@ macro_rules! rec_family {
                     let wk = $K::from(cells[t].as_ref().expect("harness: cell allocated"));
                     match w.pos {
                         WPos::Up => n.up = Some(wk),
-                        _ => n.links.push(wk),
+                        WPos::Map => n.pre.push(wk),
+                        WPos::Seq => n.links.push(wk),
                     }
                 }
                 n
@@ -892,6 +908,7 @@ macro_rules! rec_family {
             }
             struct Snap {
                 payload: String,
+                pre: Vec<Option<usize>>,
                 up: Option<Option<usize>>,
                 strong: Vec<$S<Node>>,
                 links: Vec<Option<usize>>,
@@ -908,8 +925,9 @@ macro_rules! rec_family {
                 strong.extend(n.named.values().cloned());
                 Snap {
                     payload: format!(
-                        "{tag}n{} up={} fa={} fb={} kids={} named={:?} links={}",
+                        "{tag}n{} pre={} up={} fa={} fb={} kids={} named={:?} links={}",
                         n.id,
+                        n.pre.len(),
                         n.up.is_some(),
                         n.slots.fa.is_some(),
                         n.slots.fb.is_some(),
@@ -917,6 +935,7 @@ macro_rules! rec_family {
                         n.named.keys().collect::<Vec<_>>(),
                         n.links.len()
                     ),
+                    pre: n.pre.iter().map(wptr).collect(),
                     up: n.up.as_ref().map(wptr),
                     strong,
                     links: n.links.iter().map(wptr).collect(),
@@ -938,6 +957,9 @@ macro_rules! rec_family {
                 }
             }
             fn walk_snap(s: Snap, st: &mut CanonSt) {
+                for l in s.pre {
+                    weak(l, st);
+                }
                 if let Some(u) = s.up {
                     weak(u, st);
                 }
@@ -972,7 +994,7 @@ macro_rules! rec_family {
                 a.0.read(|n| match n {
                     None => (None, None),
                     Some(n) => {
-                        let next = n.up.as_ref().or(n.links.first()).and_then(|w| w.0.upgrade()).map($S);
+                        let next = n.pre.first().or(n.up.as_ref()).or(n.links.first()).and_then(|w| w.0.upgrade()).map($S);
                         (Some(n.id), next)
                     }
                 })
@@ -1050,7 +1072,7 @@ macro_rules! rec_family {
             pub fn run(c: &Case, m: &Model) -> Result<(), String> {
                 let (root, wrapped) = build(c);
                 let before = canon(&root, &wrapped);
-                check_model(&before, m);
+                check_model(&before, m)?;
                 let ser = |r: &Option<Node>, w: &Option<$S<Node>>| match (r, w) {
                     (_, Some(a)) => serde_saphyr::to_string(a),
                     (Some(n), _) => serde_saphyr::to_string(n),
@@ -1110,7 +1132,6 @@ fn normalise(mut c: Case) -> Case {
                         w.pos = WPos::Seq;
                     }
                 }
-                WPos::Map if rec => w.pos = WPos::Seq,
                 _ => {}
             }
         }
@@ -1175,8 +1196,15 @@ fn shape_count(n: usize) -> u64 {
 fn rotate_positions(nodes: &mut [NodeD], salt: u64) {
     let mut k = salt;
     for d in nodes.iter_mut() {
+        let mut fields = 0;
         for e in d.strong.iter_mut() {
             e.pos = POS3[(k % 3) as usize];
+            if e.pos == Pos::Field {
+                fields += 1;
+                if fields > 2 {
+                    e.pos = if k % 2 == 0 { Pos::Seq } else { Pos::Map };
+                }
+            }
             k = k / 3 + 7 * (k % 3) + 1;
         }
     }
@@ -1202,6 +1230,16 @@ fn features(c: &Case, m: &Model) -> Vec<String> {
     }
     if c.root_wrapped {
         f.push("root is a wrapper".into());
+    }
+    if c.kind.is_rec() {
+        for d in &c.nodes {
+            for w in &d.weak {
+                let l = format!("link position {}", match w.pos { WPos::Seq => "after the strong fields", WPos::Map => "before the strong fields", WPos::Up => "Option field" });
+                if !f.contains(&l) {
+                    f.push(l);
+                }
+            }
+        }
     }
     // where do the later occurrences of shared strong nodes sit?
     let mut seen = vec![false; c.nodes.len()];
@@ -1246,7 +1284,7 @@ fn nontrivial_m(m: &Model) -> bool {
 #[derive(Clone, Debug)]
 struct RawGraph {
     strong: Vec<(u16, u16, bool, u8, u32)>,
-    weak: Vec<(u16, u16, bool, bool, u8)>,
+    weak: Vec<(u16, u16, bool, bool, u8)>, // (source, target, dangling, prefer an ancestor, position 0..20)
     leaves: Vec<u8>,
     leaf_of: Vec<(u16, u16)>,
     root_wrapped: bool,
@@ -1280,7 +1318,18 @@ fn assemble(kind: Kind, max_alloc: usize, r: RawGraph) -> Case {
     }
     for (sraw, traw, dangling, ancestor, pos) in r.weak {
         let s = pick_idx(sraw, n);
-        let pos = [WPos::Seq, WPos::Map, WPos::Up][(pos % 3) as usize];
+        let pos = if kind.is_rec() {
+            // the Option field is rarer: a link from there to an open node is a known finding
+            match pos {
+                0..=8 => WPos::Seq,
+                9..=17 => WPos::Map,
+                _ => WPos::Up,
+            }
+        } else if pos % 2 == 0 {
+            WPos::Seq
+        } else {
+            WPos::Map
+        };
         let to = if dangling && !kind.is_rec() {
             None
         } else if ancestor && kind.is_rec() {
@@ -1309,7 +1358,7 @@ fn random_graph(kind: Kind, p_share: f64, max_alloc: usize, max_strong: usize, m
             1..=max_strong,
         ),
         prop::collection::vec(
-            (any::<u16>(), any::<u16>(), prop::bool::weighted(0.12), prop::bool::weighted(0.6), 0u8..3),
+            (any::<u16>(), any::<u16>(), prop::bool::weighted(0.03), prop::bool::weighted(0.6), 0u8..20),
             0..=max_weak,
         ),
         prop::collection::vec(0u8..6, 0..3),
@@ -1374,7 +1423,7 @@ impl Property for C14 {
             "the strong occurrence of a node is serialised (completely) before its RcWeakAnchor/ArcWeakAnchor occurrences (anchors.rs module doc); RcRecursion/ArcRecursion links point to nodes whose strong occurrence has at least started".into(),
             "weak references to targets that are alive but not part of the serialised graph, dangling RcRecursion/ArcRecursion links and Option<weak wrapper> fields are not generated (their reading is not documented)".into(),
             "default SerializerOptions / Options; anchor names a1, a2, ... as documented in ser.rs".into(),
-            "the plain mirror is only checked for DAG kinds (a cyclic graph has no finite tree expansion) and expansions of <= 5000 nodes".into(),
+            "the plain mirror is only checked for DAG kinds (a cyclic graph has no finite tree expansion) and expansions of <= 1500 nodes".into(),
         ]
     }
     fn check(c: &Case) -> Outcome {
@@ -1401,6 +1450,9 @@ impl Property for C14 {
         }
         if any {
             v.push("dangling_weak_null");
+        }
+        if c.kind.is_rec() && simulate(c).map(|m| m.open_up > 0).unwrap_or(false) {
+            v.push("option_link_to_open_node");
         }
         v
     }
@@ -1571,7 +1623,7 @@ impl Property for C14 {
                     let span = n + 1 - lo;
                     for (i, d) in ns.iter_mut().enumerate() {
                         let t = lo + (code as usize / 3 + i) % span;
-                        d.weak.push(WeakE { to: Some(t), pos: if (code as usize / 2 + i) % 2 == 0 { WPos::Up } else { WPos::Seq } });
+                        d.weak.push(WeakE { to: Some(t), pos: [WPos::Map, WPos::Seq, WPos::Up, WPos::Map][(code as usize / 2 + i) % 4] });
                         let t2 = lo + (code as usize / 5 + 3 * i + 1) % span;
                         d.weak.push(WeakE { to: Some(t2), pos: WPos::Seq });
                         if i > 0 && (code as usize + i) % 3 == 0 {
@@ -1604,10 +1656,11 @@ impl Property for C14 {
                         rotate_positions(&mut ns, code + mask);
                         for (b, (i, t)) in pairs.iter().enumerate() {
                             if mask >> b & 1 == 1 {
-                                let pos = match (kind.is_rec(), (b as u64 + mask) % 2) {
+                                let pos = match (kind.is_rec(), (b as u64 + mask) % 3) {
                                     (false, 0) => WPos::Seq,
                                     (false, _) => WPos::Map,
                                     (true, 0) => WPos::Up,
+                                    (true, 1) => WPos::Map,
                                     (true, _) => WPos::Seq,
                                 };
                                 ns[*i].weak.push(WeakE { to: Some(*t), pos });
@@ -1635,7 +1688,10 @@ impl Property for C14 {
             for i in 0..=3usize {
                 for t in 0..=3usize {
                     for kind in [Kind::RcDag, Kind::ArcDag, Kind::RcRec, Kind::ArcRec] {
-                        for pos in [WPos::Seq, if kind.is_rec() { WPos::Up } else { WPos::Map }] {
+                        for pos in [WPos::Seq, WPos::Map, WPos::Up] {
+                            if pos == WPos::Up && !kind.is_rec() {
+                                continue;
+                            }
                             idx += 1;
                             total += 1;
                             if !ctx.mine(idx) {
@@ -1662,7 +1718,7 @@ impl Property for C14 {
                 }
             }
         }
-        ctx.subspace("shapes with 3 allocations x every single weak edge (incl. dangling / wrapped root) x 4 kinds x 2 positions", total, true);
+        ctx.subspace("shapes with 3 allocations x every single weak edge (incl. dangling / wrapped root) x 4 kinds x all positions", total, true);
 
         // --- random graphs, sharing probability swept ---------------------------------------------
         let n = ctx.tier.pick(3_000, 60_000);
